@@ -9,6 +9,7 @@ import (
 	"go/types"
 	"sort"
 	"strings"
+	"unicode/utf8"
 
 	"golang.org/x/tools/go/ssa"
 )
@@ -368,6 +369,12 @@ func (m *Machine) get(st *State, fr *Frame, v ssa.Value) Val {
 }
 
 // Run executes st until every fork is returned, blocked, stuck or panicked.
+// execCount / execPanics: how often each index, element-address and slice instruction was interpreted in
+// this process, and the first panic message seen at an instruction (used by C18-BOUNDS as bounded evidence
+// for sites that none of its proof idioms covers).
+var execCount = map[ssa.Instruction]int{}
+var execPanics = map[ssa.Instruction]string{}
+
 func (m *Machine) Run(st *State) []*State {
 	var done []*State
 	work := []*State{st}
@@ -383,7 +390,20 @@ func (m *Machine) Run(st *State) []*State {
 				s.Notes["nonterm"] = true
 				break
 			}
+			var cur ssa.Instruction
+			if fr := s.top(); fr.PC < len(fr.Blk.Instrs) {
+				cur = fr.Blk.Instrs[fr.PC]
+				switch cur.(type) {
+				case *ssa.Index, *ssa.IndexAddr, *ssa.Slice:
+					execCount[cur]++
+				}
+			}
 			forks := m.step(s)
+			if s.Status == stPanic && cur != nil {
+				if _, seen := execPanics[cur]; !seen {
+					execPanics[cur] = s.Msg
+				}
+			}
 			work = append(work, forks...)
 		}
 		if s.Status == stStuck {
@@ -704,7 +724,7 @@ func (m *Machine) step(st *State) (forks []*State) {
 				st.Msg = "negative index at " + m.P.Pos(x.Pos())
 				return nil
 			}
-			sym, ok := st.symAt(s.T, int(i))
+			sym, ok := st.symAt(s.T, int(s.Off+i))
 			if !ok {
 				return nil
 			}
@@ -860,6 +880,10 @@ func (m *Machine) step(st *State) (forks []*State) {
 		}
 	case *ssa.Range:
 		base := m.get(st, fr, x.X)
+		if str, isStr := base.(string); isStr {
+			set(&StrIterV{S: str})
+			return nil
+		}
 		mv, ok := base.(MapV)
 		if !ok {
 			if _, isNil := base.(nilV); isNil {
@@ -902,6 +926,17 @@ func (m *Machine) step(st *State) (forks []*State) {
 		set(&MapIterV{Obj: mv.Obj, Order: perms[0]})
 		return forks
 	case *ssa.Next:
+		if sit, isStr := m.get(st, fr, x.Iter).(*StrIterV); isStr && x.IsString {
+			if sit.Pos >= len(sit.S) {
+				set(&TupleV{E: []Val{false, int64(0), int64(0)}})
+				return nil
+			}
+			r, size := utf8.DecodeRuneInString(sit.S[sit.Pos:])
+			at := sit.Pos
+			sit.Pos += size
+			set(&TupleV{E: []Val{true, int64(at), int64(r)}})
+			return nil
+		}
 		it, ok := m.get(st, fr, x.Iter).(*MapIterV)
 		if !ok || x.IsString {
 			st.stuck("next on %T", m.get(st, fr, x.Iter))
@@ -985,6 +1020,29 @@ func (m *Machine) doSlice(st *State, fr *Frame, x *ssa.Slice, set func(Val)) {
 		return int(iv), ok
 	}
 	switch s := base.(type) {
+	case TapeStr:
+		// s[lo:] keeps a suffix view; anything else is outside the tape model
+		if x.High != nil || x.Max != nil {
+			st.stuck("operation outside the tape model: prefix slice of an input string")
+			return
+		}
+		lo, ok := geti(x.Low, 0)
+		if !ok || lo < 0 {
+			st.stuck("slice of an input string with a non-constant bound")
+			return
+		}
+		if lo > 0 {
+			end, ok := st.isEndAt(s.T, int(s.Off)+lo-1)
+			if !ok {
+				return
+			}
+			if end {
+				st.Status = stPanic
+				st.Msg = "slice bounds out of range (past the end of the input) at " + m.P.Pos(x.Pos())
+				return
+			}
+		}
+		set(TapeStr{T: s.T, Off: s.Off + int64(lo)})
 	case Ptr:
 		lv, ok := st.load(s)
 		arr, isArr := lv.(*ArrayV)
@@ -1088,6 +1146,9 @@ func (m *Machine) doCall(st *State, fr *Frame, x *ssa.Call) []*State {
 			}
 			st.stuck("invoke on %T", recv)
 			return nil
+		}
+		if msg, isStr := iv.V.(string); isStr && cc.Method.Name() == "Error" && len(cc.Args) == 0 {
+			return finish([]Val{msg}) // the stand-in error values of the models
 		}
 		if types.NewMethodSet(iv.T).Lookup(cc.Method.Pkg(), cc.Method.Name()) == nil {
 			// a method of an opaque stand-in object: the call is an opaque effect
@@ -1195,7 +1256,7 @@ func (m *Machine) builtin(st *State, x *ssa.Call, name string, args []Val) (Val,
 		case string:
 			return int64(len(s)), true
 		case TapeStr:
-			return TapeLen{s.T}, true
+			return TapeLen{T: s.T, Off: s.Off}, true
 		case AbsStr:
 			if s.Exact {
 				return int64(len(s.Syms)), true
@@ -1341,10 +1402,22 @@ func flipOp(op token.Token) token.Token {
 	return op
 }
 
+// wordBits is the size of int / uint / uintptr of the platform under analysis (32 while a
+// GOARCH=386 load is interpreted).
+var wordBits = 64
+
 func truncTo(v int64, t types.Type) int64 {
 	b, ok := t.Underlying().(*types.Basic)
 	if !ok {
 		return v
+	}
+	if wordBits == 32 {
+		switch b.Kind() {
+		case types.Int:
+			return int64(int32(v))
+		case types.Uint, types.Uintptr:
+			return int64(uint32(v))
+		}
 	}
 	switch b.Kind() {
 	case types.Int8:
@@ -1391,12 +1464,12 @@ func (m *Machine) binop(st *State, op token.Token, a, b Val, opType types.Type) 
 	// tape length against a position
 	if tl, ok := b.(TapeLen); ok {
 		if pos, ok := a.(int64); ok {
-			return m.cmpLen(st, op, int(pos), tl.T)
+			return m.cmpLen(st, op, int(pos+tl.Off), tl.T)
 		}
 	}
 	if tl, ok := a.(TapeLen); ok {
 		if pos, ok := b.(int64); ok {
-			return m.cmpLen(st, flipOp(op), int(pos), tl.T)
+			return m.cmpLen(st, flipOp(op), int(pos+tl.Off), tl.T)
 		}
 	}
 	if _, ok := a.(TapeLen); ok {
@@ -1500,6 +1573,15 @@ func (m *Machine) binop(st *State, op token.Token, a, b Val, opType types.Type) 
 	}
 	st.stuck("binop %s on %T, %T", op, a, b)
 	return nil, false
+}
+
+// viewEmpty decides `view == ""` (the view starts at or before the end of its tape by construction).
+func (m *Machine) viewEmpty(st *State, op token.Token, ts TapeStr) (Val, bool) {
+	end, ok := st.isEndAt(ts.T, int(ts.Off))
+	if !ok {
+		return nil, false
+	}
+	return end == (op == token.EQL), true
 }
 
 // cmpLen decides `pos op len(tape t)`.
@@ -1659,13 +1741,13 @@ func (m *Machine) compare(st *State, op token.Token, a, b Val) (Val, bool) {
 			return m.cmpAbs(op, b, a)
 		}
 		if ts, ok := b.(TapeStr); ok && x == "" && (op == token.EQL || op == token.NEQ) {
-			return m.cmpLen(st, op, 0, ts.T)
+			return m.viewEmpty(st, op, ts)
 		}
 	case AbsStr:
 		return m.cmpAbs(op, a, b)
 	case TapeStr:
 		if y, ok := b.(string); ok && y == "" && (op == token.EQL || op == token.NEQ) {
-			return m.cmpLen(st, op, 0, x.T)
+			return m.viewEmpty(st, op, x)
 		}
 	case Ptr:
 		if isNil(b) {
@@ -1817,6 +1899,19 @@ func (m *Machine) cmpAbs(op token.Token, a, b Val) (Val, bool) {
 	return Unknown{Why: "abstract string compared"}, true
 }
 
+// classHasHighByte: the symbol class contains a byte >= 0x80 (whose code point encodes to two bytes).
+func (m *Machine) classHasHighByte(c int) bool {
+	if m.Alpha == nil || c < 0 || c >= len(m.Alpha.Members) {
+		return true
+	}
+	for _, b := range m.Alpha.Members[c] {
+		if b >= 0x80 {
+			return true
+		}
+	}
+	return false
+}
+
 func (m *Machine) convert(st *State, v Val, from, to types.Type) (Val, bool) {
 	fb, _ := from.Underlying().(*types.Basic)
 	tb, _ := to.Underlying().(*types.Basic)
@@ -1834,7 +1929,9 @@ func (m *Machine) convert(st *State, v Val, from, to types.Type) (Val, bool) {
 	case fb != nil && tb != nil && fb.Info()&types.IsInteger != 0 && tb.Info()&types.IsString != 0:
 		switch x := v.(type) {
 		case SymV:
-			st.Notes["int-to-string conversion of an input byte"] = true
+			if m.classHasHighByte(x.C) {
+				st.Notes["int-to-string conversion of an input byte"] = true
+			}
 			return AbsStr{Exact: true, Syms: []int{x.C}}, true
 		case int64:
 			return string(rune(x)), true
@@ -1884,6 +1981,9 @@ func (m *Machine) convert(st *State, v Val, from, to types.Type) (Val, bool) {
 				case SymV:
 					allInt = false
 					out.Syms = append(out.Syms, y.C)
+					if eb, _ := sl.Elem().Underlying().(*types.Basic); (eb == nil || eb.Kind() != types.Uint8) && m.classHasHighByte(y.C) {
+						st.Notes["int-to-string conversion of an input byte"] = true // string([]rune{rune(b)}) re-encodes too
+					}
 				case int64:
 					if eb, _ := sl.Elem().Underlying().(*types.Basic); eb != nil && eb.Kind() == types.Uint8 {
 						sb.WriteByte(byte(y))
@@ -1971,10 +2071,24 @@ func (m *Machine) Key(st *State) string {
 					if len(st.Tapes) != 1 {
 						continue
 					}
-					ts = TapeStr{0} // a single input string: every cursor is a position in it
+					ts = TapeStr{T: 0} // a single input string: every cursor is a position in it
+				}
+				if ts.Off != 0 {
+					continue // an index into a shifted view is not an absolute position
 				}
 				fr, v := fr, re.v
 				curs[ts.T] = append(curs[ts.T], curRef{func() int64 { return fr.Regs[v].(int64) }, func(x int64) { fr.Regs[v] = x }})
+			}
+		}
+	}
+	// views of a tape carry their own cursor (the offset)
+	if m.Curs != nil {
+		for fi, fr := range st.Frames {
+			for _, re := range frameRegs[fi] {
+				if ts, ok := fr.Regs[re.v].(TapeStr); ok && m.Curs.views[re.v] {
+					fr, v, t := fr, re.v, ts.T
+					curs[t] = append(curs[t], curRef{func() int64 { return fr.Regs[v].(TapeStr).Off }, func(x int64) { fr.Regs[v] = TapeStr{T: t, Off: x} }})
+				}
 			}
 		}
 	}
